@@ -38,7 +38,7 @@ class Rerun(Unit):
         "C17.rerun.resuming": {"props": ["C17"], "text":
             "an accepted rerun sets the workflow to resuming, resets the output and records one rerun entry"},
         "C17.rerun.exact": {"props": ["C17", "C18"], "text":
-            "exactly the requested executions (default: abended terminal ones) get a fresh record and one ready staged entry; earlier records are only appended to; executions on other routes keep their terminal flag and everything else"},
+            "exactly the requested executions (default: abended terminal ones) get a fresh record and exactly one ready staged entry - also when the execution was still staged, waiting to be retried, when the workflow ended; earlier records are only appended to; executions on other routes keep their terminal flag and everything else"},
         "C17.rerun.downstream_reopened": {"props": ["C17"], "text":
             "the executions that followed a rerun execution on the same route are no longer terminal (their old contexts must not reach the output of the rerun), and the rerun execution's old record is no longer terminal either"},
         "C17.rerun.items": {"props": ["C17", "C03", "C12"], "text":
@@ -68,7 +68,9 @@ class Rerun(Unit):
             e.overrides[json_util.deepcopy] = cbase.deepcopy_model
             e.register_input("wf", wf_c)
             e.register_input("req", req)
-            sb = [st.FAILED, st.SUCCEEDED, st.EXPIRED][e.choose(3)]
+            # b on route 0: abended, succeeded, or still waiting to be retried (and therefore still
+            # staged) when the workflow ended
+            sb = [st.FAILED, st.SUCCEEDED, st.EXPIRED, st.RETRYING][e.choose(4)]
             e.register_input("status_b0", sb)
             term_b0 = e.branch(e.register_input("term_b0", S.mk_bool("term_b0")).z)
             seq = [
@@ -86,6 +88,10 @@ class Rerun(Unit):
                             "status": [st.FAILED, st.SUCCEEDED][e.choose(2)], "term": True})
                 tasks["c__r0"] = 5
             staged = []
+            if sb == st.RETRYING:
+                seq[2]["retry"] = {"when": None, "count": 2, "delay": 3, "tally": 1}
+                staged.append({"id": "b", "route": 0, "ctxs": {"in": [0, 1]}, "prev": {"a__t0": 0}, "ready": True,
+                               "retry": {"when": None, "count": 2, "delay": 3, "tally": 1}})
             item_sts = None
             if items_mode:
                 item_sts = [e.register_input("item%d" % i, S.mk_const("item%d" % i,
@@ -166,7 +172,9 @@ class Rerun(Unit):
                 ents = [x for x in staged if x["id"] == tid and x["route"] == rt]
                 ok = ok and len(ents) == 1 and ents[0]["ready"] is True and "completed" not in ents[0] and "items" not in ents[0]
                 ok = ok and tasks.get("%s__r%d" % (tid, rt), -1) >= n0
-            ok = ok and all(x["id"] in [p[0] for p in plain] + ["w"] for x in staged)
+            # nothing else is staged by the request: any other entry was staged before and is left as it was
+            pre_keys = [(x["id"], x["route"]) for x in snap_staged]
+            ok = ok and all((x["id"], x["route"]) in plain or x["id"] == "w" or (x["id"], x["route"]) in pre_keys for x in staged)
             # earlier records only lose `term` (on the rerun executions and their downstream on the same route)
             frame = True
             downstream = set()
